@@ -72,6 +72,47 @@ def handle (ts : List String) : String :=
       (encode m n sd ns).map fun ps =>
         fmtTuple [fmtRats (ps.map (·.bp)), fmtRats (ps.map (·.timing)), fmtRats (ps.map (·.ratio)),
                   fmtList fmtRats (ps.map (·.cols))]
+  | "mono" :: rest =>
+    orErr <| (run (do let xs ← list rat; let ss ← list rat; pure (xs, ss)) rest).map fun (xs, ss) =>
+      fmtTuple [fmtList (fun k : Rat × Rat => fmtTuple [fmtRat k.1, fmtRat k.2]) (monoKnots (xs.zip ss)),
+                fmtList (fun x => fmtO (monoFun xs ss x)) xs]
+  | "tempo" :: rest =>
+    orErr <| (run (do let m ← tok; let ns ← list pMNote; pure (m, ns)) rest).bind fun (m, ns) =>
+      let gs := encGroups ns
+      let r := match m with
+        | "average" => tempoAverage ns gs
+        | "derivative" => tempoDerivative ns gs
+        | _ => none
+      r.map fmtRats
+  | "encm" :: rest =>
+    orErr <| (run (do let n ← parseNorm; let m ← tok; let sd ← rat; let ns ← list pMNote
+                      pure (n, m, sd, ns)) rest).bind fun (n, m, sd, ns) =>
+      let m? : Option Method := match m with
+        | "average" => some .average
+        | "derivative" => some .derivative
+        | _ => none
+      m?.bind fun m =>
+      (encode m n sd ns).map fun ps =>
+        fmtTuple [fmtRats (ps.map (·.bp)), fmtRats (ps.map (·.timing)), fmtRats (ps.map (·.ratio)),
+                  fmtList fmtRats (ps.map (·.cols))]
+  | "encp" :: rest =>
+    orErr <| (run (do let n ← parseNorm; let m ← tok; let sd ← rat; let t ← pTables
+                      pure (n, m, sd, t)) rest).bind fun (n, m, sd, (ss, ps, al)) =>
+      let m? : Option Method := match m with
+        | "average" => some .average
+        | "derivative" => some .derivative
+        | _ => none
+      m?.bind fun m =>
+      (encodePerformance m n sd ss ps al).map fun (rows, ids) =>
+        fmtTuple [fmtList (fun s => s) ids, fmtRats (rows.map (·.1.bp)), fmtRats (rows.map (·.1.timing)),
+                  fmtRats (rows.map (·.1.ratio)), fmtList fmtRats (rows.map (·.1.cols)), fmtRats (rows.map (·.2))]
+  | "tma" :: rest =>
+    orErr <| (run (do let ro ← bool; let t ← pTables; let qs ← list rat; let qp ← list rat
+                      pure (ro, t, qs, qp)) rest).bind fun (ro, (ss, ps, al), qs, qp) =>
+      (alignmentKnots ro ss ps al).map fun ks =>
+        fmtTuple [fmtList (fun k : Rat × Rat => fmtTuple [fmtRat k.1, fmtRat k.2]) ks,
+                  fmtList (fun q => fmtO (stimeToPtime ks q)) qs,
+                  fmtList (fun q => fmtO (ptimeToStime ks q)) qp]
   | "dec" :: rest =>
     orErr <| (run (do let n ← parseNorm; let ss ← list pSRow; let ps ← list pParamRow; pure (n, ss, ps)) rest).bind
       fun (n, ss, ps) =>
